@@ -57,6 +57,11 @@ func genConcCase(t *rapid.T, free bool) ConcCase {
 	c.W.Compress = rapid.Bool().Draw(t, "compress")
 	c.W.Pool = rapid.Bool().Draw(t, "pool")
 	c.Steps = genWriteProgram(t, c.W.EffWriteBuf(), WGenOpts{MaxSteps: 5, AllowHuge: false, AllowBad: true, AllowClose: true, AllowCtl: true})
+	for i := range c.Steps {
+		if c.Steps[i].Op == "json" && c.Steps[i].JSON == unencodableJSON {
+			c.Steps[i].JSON = `"x"` // wire attribution of a failed WriteJSON needs the sequential transport
+		}
+	}
 	n := rapid.IntRange(0, 3).Draw(t, "nctl")
 	for i := 0; i < n; i++ {
 		a := CtlActor{MT: rapid.SampledFrom([]int{9, 10, 9, 10, 8}).Draw(t, "cmt"), Len: rapid.IntRange(6, 125).Draw(t, "clen")}
